@@ -139,7 +139,17 @@ func TestC19RoundTrip(t *testing.T) {
 			c.Failf("C19/base-address", "KeyFile.BaseAddress %x, reference index-0 address %x", kf.BaseAddress.Bytes(), rv.addr0)
 		}
 		dir := caseDir(c)
-		sub, name, path := placeFile(dir, 0, nil)
+		// what the path held before: nothing, or an older (longer) key file that is being replaced
+		var prev []byte
+		switch c.Weighted("previous-file", 2, 2, 1) {
+		case 1:
+			prev = refKeyFileJSON(rv.addr0, bytes.Repeat([]byte{0xab}, 32+16+c.Int("previous-extra", 0, 64)), bytes.Repeat([]byte{1}, 12), bytes.Repeat([]byte{2}, 16), 1600000000)
+			c.Class("replaces-longer-key-file")
+		case 2:
+			prev = bytes.Repeat([]byte("old content "), 300)
+			c.Class("replaces-other-content")
+		}
+		sub, name, path := placeFile(dir, 0, prev)
 		kf.Path = path
 		if err := kf.Write(); err != nil {
 			c.Failf("C19/write-error", "KeyFile.Write: %v", err)
